@@ -191,6 +191,26 @@ func e16RootCase(seed uint64, n int, handlerKind, closeAt, created string, overf
 			if closeAt == "before-ready" {
 				mon.Close()
 			}
+			if closeAt == "cache-stopped-before-ready" {
+				// the cache dies first (its context ends), the subscription lives on and
+				// becomes ready: the monitor cannot read the content at readiness
+				g.cancel()
+				waitCh(g.root.Cache().Done(), virtBound)
+				g.root.MakeReady()
+				g.barrier()
+				for _, c := range h.snapshot() {
+					if c.Kind == "init" && len(c.Objs) != 3 {
+						r.V("C16", "init-content-wrong", "the cache (holding 3 objects) had stopped when the publisher became ready; OnInitialize ran with %d objects", len(c.Objs))
+					}
+				}
+				if c := h.snapshot(); len(c) > 0 && c[0].Kind != "init" {
+					r.V("C16", "callback-before-init", "first callback is %s", c[0].Kind)
+				}
+				r.Add("no-callback-checks", 1)
+				g.stop(r, "C12")
+				r.Key(id)
+				return
+			}
 			if closeAt == "publisher-before-ready" {
 				g.root.Stop()
 				if !waitCh(mon.Done(), virtBound) {
@@ -348,13 +368,13 @@ func (s *initSpy) OnInitialize(objs []metav1.Object) {
 
 // typed monitors over a real typed controller --------------------------------
 
-func e16TypedCase(seed uint64, n int, unitary bool) Case {
+func e16TypedCase(seed uint64, n int, unitary bool, emptyInit bool) Case {
 	path := "typed"
 	if unitary {
 		path = "unitary"
 	}
 	d := e16desc{seed, n, path, "fast", "none", "before-ready", 40, false}
-	id := fmt.Sprintf("E16/%s/%d/%d", path, seed, n)
+	id := fmt.Sprintf("E16/%s/%d/%d/empty=%v", path, seed, n, emptyInit)
 	return Case{ID: id, Desc: d, Bubble: true, Run: func(r *Res) {
 		rng := kit.NewRng(kit.Mix(seed, uint64(n)+1661))
 		core := kit.NewCore(&kit.Plan{Seed: rng.U64(), PYield: 100, PSleep: 20, MaxSleep: 50 * time.Microsecond})
@@ -363,7 +383,9 @@ func e16TypedCase(seed uint64, n int, unitary bool) Case {
 		if unitary {
 			u = universe{nss: []string{"n0"}, names: []string{"a"}, labels: smallUniverse().labels}
 		}
-		u.mutate(rng, srv)
+		if !emptyInit {
+			u.mutate(rng, srv)
+		}
 		ctx, cancel := ctxWithCancel()
 		defer cancel()
 		ctl, err := pod.BuildController(ctx, kit.NewLog(core), srv)
@@ -462,7 +484,8 @@ func e16TypedCase(seed uint64, n int, unitary bool) Case {
 				r.V("C16", "init-content-wrong", "%s: OnInitialize got %v, the cache held %v at readiness", label, got, initWant)
 			}
 		} else if len(initWant) == 1 || !unitary {
-			r.V("C16", "init-missing", "%s: OnInitialize never ran", label)
+			// (a unitary handler is, by its contract, not initialised with 0 or >1 objects)
+			r.V("C16", "init-missing", "%s: the publisher became ready (cache content at readiness: %v) but OnInitialize never ran; %d other callbacks did", label, initWant, len(cs))
 		}
 		r.Add("exact-stream-checks", 1)
 		mon.Close()
@@ -489,9 +512,9 @@ func init() {
 		reps := tierPick(tier, 3, 60)
 		for rep := 0; rep < reps; rep++ {
 			for _, hk := range []string{"instant", "fast", "slow", "blocked"} {
-				for _, cl := range []string{"none", "before-ready", "mid-stream", "during-callback", "publisher-before-ready"} {
+				for _, cl := range []string{"none", "before-ready", "mid-stream", "during-callback", "publisher-before-ready", "cache-stopped-before-ready"} {
 					for _, cr := range []string{"before-ready", "after-ready", "after-ready-prebuffered"} {
-						if cr != "before-ready" && (cl == "before-ready" || cl == "publisher-before-ready") {
+						if cr != "before-ready" && (cl == "before-ready" || cl == "publisher-before-ready" || cl == "cache-stopped-before-ready") {
 							continue
 						}
 						if hk == "blocked" && cl != "none" {
@@ -503,8 +526,8 @@ func init() {
 				cases = append(cases, e16RootCase(seed, rep, hk, "none", "before-ready", true))
 			}
 			for i := 0; i < 4; i++ {
-				cases = append(cases, e16TypedCase(seed, rep*4+i, false))
-				cases = append(cases, e16TypedCase(seed, rep*4+i, true))
+				cases = append(cases, e16TypedCase(seed, rep*4+i, false, i%2 == 1))
+				cases = append(cases, e16TypedCase(seed, rep*4+i, true, false))
 			}
 		}
 		return cases
